@@ -275,8 +275,8 @@ struct PortSide {
       } else {
         bxdecay0::event ev;
         if (c.dbd()) {
-          pars.modebb = c.mode;
-          pars.istartbb = 0;
+          // (the working fields modebb / istartbb are genbbsub's own business, as in the Fortran: the caller only
+          //  provides the NMEs and the energy-sum range)
           pars.chi_GTw = NME[0]; pars.chi_Fw = NME[1]; pars.chip_GT = NME[2]; pars.chip_F = NME[3]; pars.chip_T = NME[4]; pars.chip_P = NME[5]; pars.chip_R = NME[6];
           // the caller provides the energy-sum range at every initialisation (as the Fortran caller fills common/enrange/)
           pars.ebb1 = c.lo();
